@@ -38,7 +38,7 @@ Practical notes:
 
 DELIVERABLES (all inside {wt}):
  1. `SEED_patch.diff`  -- output of `git diff` for your change to the LiteX sources only (the demo must NOT be part of it).
- 2. `SEED_demo.py`     -- the demonstration; `PYTHONPATH={wt} /venv/bin/python SEED_demo.py` exits non-zero with the change applied and 0 without it (verify both ways: `git stash` / `git stash pop`, or `git apply -R SEED_patch.diff`).
+ 2. `SEED_demo.py`     -- the demonstration; `PYTHONPATH={wt} /venv/bin/python SEED_demo.py` exits non-zero with the change applied and 0 without it (verify both ways with `git apply -R SEED_patch.diff` and `git apply SEED_patch.diff`; do NOT use `git stash`: the stash is shared between all worktrees of the repository and other participants use it too).
  3. `SEED_meta.json`   -- {{"property": "{pid}", "summary": "<one sentence: what was changed>", "needs": "<what specific condition is needed for it to manifest>", "files": [...], "tests_before": <n passed>, "tests_after": <n passed>, "demo_fails_with_patch": true, "demo_passes_without_patch": true}}
 Leave the worktree WITH the change applied. In your final message give the summary, the 'needs' sentence, and the exact commands you ran to confirm (b) and the demo both ways."""
 
